@@ -1,10 +1,13 @@
 import PrefVerif.Driver.Util
 import PrefVerif.Driver.C20
+import PrefVerif.Driver.Voting
 open Lean PrefVerif.Driver
 
 def handlers : List (String × Handler) := [
   ("c20.pair", C20.pair),
-  ("c20.matrix", C20.matrix)
+  ("c20.matrix", C20.matrix),
+  ("voting.tables", Voting.tables),
+  ("voting.rule", Voting.rule)
 ]
 
 def dispatch (j : Json) : Json :=
